@@ -47,7 +47,7 @@ def job(j):
         w = st["world"]
         st["n"] += 1
         nodes = rec["nodes"]
-        doc = render.DocText(nodes, layout=st["n"] % 2, reverse_defs=(st["n"] % 3 == 0 and is_seed))
+        doc = render.DocText(nodes, layout=st["n"] % 2, reverse_defs=(st["n"] % 3 == 0 and is_seed), rename_frags=("op" if st["n"] % 4 == 1 else False))
         cs = CaseState({})
         cs.ctx = {"__cs": cs}
         eng = w.engine({"hooks": True})
